@@ -243,3 +243,203 @@ end Sst
 #print axioms Sst.C12_no_lock_error
 #print axioms Sst.C12_critical_sections_never_panic
 #print axioms Sst.C12_lock_error_is_poison
+
+/-! ### (4) the cache id allocation: a read-modify-write of a shared counter
+
+  `Table::new` does `let mut c = opt.block_cache.write()?; c.new_cache_id()` with
+  `new_cache_id = { self.id += 1; self.id }`. `Sst.SchedS` (Model/Sched.lean) adds the shared counter to
+  the lock model: `load` (register := counter) and `store` (counter := register + 1, handing out that
+  id). If every `load; store` pair sits inside one critical section (`AllocInside`) the ids handed out
+  are pairwise distinct under EVERY schedule (`C12_ids_distinct_any_schedule`); without the lock — or
+  under a shared (read) lock, which excludes nobody, or with the pair split over two critical
+  sections — two threads obtain the same id (`C12_ids_racy_counterexample`,
+  `C12_ids_split_counterexample`) and would then serve each other's cached blocks. -/
+namespace Sst
+
+/-- with the allocation inside a critical section, for EVERY schedule that only picks enabled threads,
+    from the initial state (counter `c0`, nothing handed out): the ids handed out are pairwise distinct,
+    all `> c0`, they are `c0+1, c0+2, …` in the order of the allocations; the counter is `c0` + the
+    number of ids handed out, which is the number of `store`s executed; the invariant `AInv` holds -/
+theorem C12_ids_distinct_any_schedule (c0 : Nat) (progs : List (List SchedS.Instr))
+    (hd : ∀ p ∈ progs, SchedS.Disciplined p = true) (ha : ∀ p ∈ progs, SchedS.AllocInside p = true)
+    (sched : List Nat) (hv : SchedS.ValidSched (SchedS.init c0 progs) sched) :
+    ((SchedS.run (SchedS.init c0 progs) sched).log.map Prod.snd).Nodup
+      ∧ (∀ e ∈ (SchedS.run (SchedS.init c0 progs) sched).log, c0 < e.2)
+      ∧ (SchedS.run (SchedS.init c0 progs) sched).counter
+          = c0 + (SchedS.run (SchedS.init c0 progs) sched).log.length
+      ∧ (SchedS.run (SchedS.init c0 progs) sched).log.map Prod.snd
+          = (List.range (SchedS.run (SchedS.init c0 progs) sched).log.length).map (fun n => c0 + 1 + n)
+      ∧ (SchedS.run (SchedS.init c0 progs) sched).log.length
+            + SchedS.storesLeft (SchedS.run (SchedS.init c0 progs) sched).threads
+          = SchedS.storesLeft (SchedS.init c0 progs).threads
+      ∧ SchedS.AInv c0 (SchedS.run (SchedS.init c0 progs) sched) := by
+  have hinv := SchedS.run_ainv c0 sched _ (SchedS.init_ainv c0 progs hd ha) hv
+  refine ⟨?_, ?_, hinv.counter, hinv.ids, ?_, hinv⟩
+  · rw [hinv.ids]; exact SchedS.nodup_ids c0 _
+  · intro e he
+    have : e.2 ∈ (SchedS.run (SchedS.init c0 progs) sched).log.map Prod.snd := List.mem_map_of_mem he
+    rw [hinv.ids, List.mem_map] at this
+    obtain ⟨n, _, hn⟩ := this
+    omega
+  · have := SchedS.run_stores sched (SchedS.init c0 progs)
+    rw [this]; simp [SchedS.init]
+
+/-- the invariant is inductive (from any state, not only the initial one) -/
+theorem C12_alloc_step (c0 : Nat) (s : SchedS.State) (hinv : SchedS.AInv c0 s) (i : Nat)
+    (he : SchedS.enabled s i = true) : SchedS.AInv c0 (SchedS.stepThread s i) :=
+  SchedS.step_ainv c0 s hinv i he
+
+/-- the seeded bug's shape: `load; store` NOT inside a critical section (the read lock of the seeded
+    code excludes nobody, so it is no `acquire` of this lock). The programs respect the lock discipline
+    (vacuously) but are not `AllocInside`; the schedule load₀ load₁ store₀ store₁ is valid and hands
+    out the id 1 twice -/
+theorem C12_ids_racy_counterexample :
+    (∀ p ∈ [[SchedS.Instr.load, .store], [.load, .store]], SchedS.Disciplined p = true)
+      ∧ (∀ p ∈ [[SchedS.Instr.load, .store], [.load, .store]], SchedS.AllocInside p = false)
+      ∧ SchedS.ValidSched (SchedS.init 0 [[.load, .store], [.load, .store]]) [0, 1, 0, 1]
+      ∧ (SchedS.run (SchedS.init 0 [[.load, .store], [.load, .store]]) [0, 1, 0, 1]).log = [(0, 1), (1, 1)]
+      ∧ ¬ ((SchedS.run (SchedS.init 0 [[.load, .store], [.load, .store]]) [0, 1, 0, 1]).log.map
+            Prod.snd).Nodup :=
+  ⟨by decide, by decide, ⟨rfl, rfl, rfl, rfl, trivial⟩, by decide, by decide⟩
+
+/-- taking the lock is not enough if the pair is split: `load` in one critical section, `store` in the
+    next one. Disciplined, not `AllocInside`, and a valid schedule hands out the id 1 twice -/
+theorem C12_ids_split_counterexample :
+    (∀ p ∈ [[SchedS.Instr.acquire, .load, .release, .acquire, .store, .release],
+            [.acquire, .load, .release, .acquire, .store, .release]], SchedS.Disciplined p = true)
+      ∧ SchedS.AllocInside [.acquire, .load, .release, .acquire, .store, .release] = false
+      ∧ SchedS.ValidSched
+          (SchedS.init 0 [[.acquire, .load, .release, .acquire, .store, .release],
+                          [.acquire, .load, .release, .acquire, .store, .release]])
+          [0, 0, 0, 1, 1, 1, 0, 0, 0, 1, 1, 1]
+      ∧ (SchedS.run
+          (SchedS.init 0 [[.acquire, .load, .release, .acquire, .store, .release],
+                          [.acquire, .load, .release, .acquire, .store, .release]])
+          [0, 0, 0, 1, 1, 1, 0, 0, 0, 1, 1, 1]).log = [(0, 1), (1, 1)] :=
+  ⟨by decide, by decide, ⟨rfl, rfl, rfl, rfl, rfl, rfl, rfl, rfl, rfl, rfl, rfl, rfl, trivial⟩, by decide⟩
+
+/-- erasure (`load`, `store` ↦ `step`) maps the model with the counter onto the lock model:
+    enabledness, steps, runs and valid schedules commute with it -/
+theorem C12_alloc_erasure (s : SchedS.State) :
+    (∀ i, Sched.enabled (SchedS.erase s) i = SchedS.enabled s i)
+      ∧ (∀ i, SchedS.erase (SchedS.stepThread s i) = Sched.stepThread (SchedS.erase s) i)
+      ∧ (∀ sched, SchedS.erase (SchedS.run s sched) = Sched.run (SchedS.erase s) sched)
+      ∧ (∀ sched, SchedS.ValidSched s sched ↔ Sched.ValidSched (SchedS.erase s) sched) :=
+  ⟨SchedS.enabled_erase s, SchedS.stepThread_erase s, fun sched => SchedS.run_erase sched s,
+    fun sched => SchedS.validSched_erase sched s⟩
+
+/-- no deadlock in the model with the counter (from `C12_progress` through erasure) -/
+theorem C12_alloc_progress (s : SchedS.State) (hinv : Sched.Inv (SchedS.erase s))
+    (hnot : ∃ t ∈ s.threads, t.prog ≠ []) : ∃ i, SchedS.enabled s i = true := by
+  obtain ⟨i, hi⟩ := C12_progress (SchedS.erase s) hinv (SchedS.exists_unfinished_erase s hnot)
+  exact ⟨i, by rw [← SchedS.enabled_erase]; exact hi⟩
+
+/-- termination in the model with the counter (from `C12_terminates` through erasure): along any valid
+    schedule the lock invariant is kept and each step executes one instruction; a schedule shorter
+    than `measure s` can be continued; one of length `measure s` has finished every program, with the
+    lock free -/
+theorem C12_alloc_terminates (s : SchedS.State) (hinv : Sched.Inv (SchedS.erase s)) (sched : List Nat)
+    (hv : SchedS.ValidSched s sched) :
+    Sched.Inv (SchedS.erase (SchedS.run s sched))
+      ∧ SchedS.measure (SchedS.run s sched) + sched.length = SchedS.measure s
+      ∧ (sched.length < SchedS.measure s → ∃ i, SchedS.ValidSched s (sched ++ [i]))
+      ∧ (sched.length = SchedS.measure s →
+          (∀ t ∈ (SchedS.run s sched).threads, t.prog = []) ∧ (SchedS.run s sched).holder = none) := by
+  obtain ⟨h1, h2, h3, h4⟩ :=
+    C12_terminates (SchedS.erase s) hinv sched ((SchedS.validSched_erase sched s).mp hv)
+  rw [← SchedS.run_erase] at h1 h2 h4
+  refine ⟨h1, h2, ?_, ?_⟩
+  · intro hlt
+    obtain ⟨i, hi⟩ := h3 hlt
+    exact ⟨i, (SchedS.validSched_erase _ s).mpr hi⟩
+  · intro heq
+    obtain ⟨hf, hh⟩ := h4 heq
+    exact ⟨(SchedS.finished_iff _).mp hf, hh⟩
+
+/-- … and for disciplined, `AllocInside` programs complete schedules exist and hand out exactly as
+    many ids as there are `store`s in the programs -/
+theorem C12_alloc_complete (c0 : Nat) (progs : List (List SchedS.Instr))
+    (hd : ∀ p ∈ progs, SchedS.Disciplined p = true) (ha : ∀ p ∈ progs, SchedS.AllocInside p = true) :
+    (∃ sched, SchedS.ValidSched (SchedS.init c0 progs) sched
+        ∧ sched.length = SchedS.measure (SchedS.init c0 progs))
+      ∧ ∀ sched, SchedS.ValidSched (SchedS.init c0 progs) sched →
+          sched.length = SchedS.measure (SchedS.init c0 progs) →
+          (SchedS.run (SchedS.init c0 progs) sched).log.length
+            = SchedS.storesLeft (SchedS.init c0 progs).threads := by
+  have hinv := SchedS.init_ainv c0 progs hd ha
+  refine ⟨?_, ?_⟩
+  · obtain ⟨sched, hv, hl⟩ := C12_schedule_exists _ hinv.lock
+    exact ⟨sched, (SchedS.validSched_erase _ _).mpr hv, hl⟩
+  · intro sched hv hl
+    have hfin := ((C12_alloc_terminates _ hinv.lock sched hv).2.2.2 hl).1
+    have hst := SchedS.run_stores sched (SchedS.init c0 progs)
+    have h0 : SchedS.storesLeft (SchedS.run (SchedS.init c0 progs) sched).threads = 0 := by
+      generalize (SchedS.run (SchedS.init c0 progs) sched).threads = ts at hfin
+      induction ts with
+      | nil => rfl
+      | cons t ts ih =>
+        have ht := hfin t List.mem_cons_self
+        simp only [SchedS.storesLeft, ht, List.count_nil, Nat.zero_add]
+        exact ih (fun t' h' => hfin t' (List.mem_cons_of_mem _ h'))
+    rw [h0] at hst
+    simpa [SchedS.init] using hst
+
+/-- the sequential table model performs exactly this pair atomically. `new_cache_id` is the
+    read-modify-write `id := (id + 1) mod 2^64; return id` touching nothing else in the cache; and
+    `Table::new` on a well-formed image in a clean world (setting of `open_ok`, cf. `C10_ids_distinct`,
+    `C10_two_opens_distinct`) returns a handle whose cache id is the old counter + 1 and leaves the
+    counter at that id, cache contents and capacity untouched — one `load; store` with nothing in
+    between. (The model is sequential: one `M` action is atomic, which is what the write lock
+    provides.) -/
+theorem C12_new_allocates_atomically :
+    (∀ (c : LruCache Bytes), c.newCacheId.2 = (c.nextId + 1) % 2 ^ 64
+        ∧ c.newCacheId.1.nextId = c.newCacheId.2
+        ∧ c.newCacheId.1.entries = c.entries ∧ c.newCacheId.1.cap = c.cap)
+      ∧ (∀ (cmp : Cmp) (_ : cmp.Lawful) (p : FilterPolicy) (t : TableImg) (_ : t.WF cmp)
+          (fv : Option Bytes) (_ : FilterView p t fv) (w : World) (file : Nat)
+          (_ : CleanWorld w file t.img),
+          ∃ w' tb, Table.new ⟨cmp, p⟩ file t.img.length w = (w', .ok tb)
+            ∧ tb.cacheId = (w.cache.nextId + 1) % 2 ^ 64
+            ∧ w'.cache.nextId = tb.cacheId
+            ∧ w'.cache.entries = w.cache.entries ∧ w'.cache.cap = w.cache.cap) := by
+  refine ⟨fun c => ⟨rfl, rfl, rfl, rfl⟩, ?_⟩
+  intro cmp hc p t hwf fv hfv w file hcw
+  obtain ⟨w', tb, hnew, _, _, hid, _, _, hent, hcap, hnid, _⟩ := open_ok cmp hc p t hwf fv hfv w file hcw
+  exact ⟨w', tb, hnew, hid, by rw [hnid, hid], hent, hcap⟩
+
+/-- in the thread model the same section `acquire; load; store; release`, from any counter value `n`
+    and with any other threads around, hands out `n + 1` and leaves the counter at `n + 1` -/
+theorem C12_atomic_alloc_section (n : Nat) (others : List SchedS.Thread) (log : List (Nat × Nat)) :
+    (SchedS.run { threads := ⟨[.acquire, .load, .store, .release], 0⟩ :: others, holder := none,
+                  counter := n, log := log } [0, 0, 0, 0]).counter = n + 1
+      ∧ (SchedS.run { threads := ⟨[.acquire, .load, .store, .release], 0⟩ :: others, holder := none,
+                      counter := n, log := log } [0, 0, 0, 0]).log = log ++ [(0, n + 1)]
+      ∧ (SchedS.run { threads := ⟨[.acquire, .load, .store, .release], 0⟩ :: others, holder := none,
+                      counter := n, log := log } [0, 0, 0, 0]).holder = none :=
+  ⟨rfl, rfl, rfl⟩
+
+-- the shape of `Table::new` followed by a lookup: allocation section, then a `read_block` section
+example : SchedS.Disciplined [.step, .acquire, .load, .store, .release, .step, .acquire, .step, .release] = true
+    ∧ SchedS.AllocInside [.step, .acquire, .load, .store, .release, .step, .acquire, .step, .release] = true := by
+  decide
+-- a `store` without its `load`, a `load` that is never stored, a step between the two: not `AllocInside`
+example : SchedS.AllocInside [.acquire, .store, .release] = false := by decide
+example : SchedS.AllocInside [.acquire, .load, .release] = false := by decide
+example : SchedS.AllocInside [.acquire, .load, .step, .store, .release] = false := by decide
+-- three threads opening tables under the lock, one interleaving: ids 8, 9, 10
+example : ((SchedS.run (SchedS.init 7 [[.acquire, .load, .store, .release], [.acquire, .load, .store, .release],
+    [.step, .acquire, .load, .store, .release]]) [2, 1, 1, 1, 2, 1, 2, 2, 0, 0, 2, 0, 0]).log.map Prod.snd)
+    = [8, 9, 10] := by decide
+
+end Sst
+
+#print axioms Sst.C12_ids_distinct_any_schedule
+#print axioms Sst.C12_alloc_step
+#print axioms Sst.C12_ids_racy_counterexample
+#print axioms Sst.C12_ids_split_counterexample
+#print axioms Sst.C12_alloc_erasure
+#print axioms Sst.C12_alloc_progress
+#print axioms Sst.C12_alloc_terminates
+#print axioms Sst.C12_alloc_complete
+#print axioms Sst.C12_new_allocates_atomically
+#print axioms Sst.C12_atomic_alloc_section
